@@ -44,68 +44,77 @@ def families():
 def convergence(ctx, info, thorough):
     """error of the SPECIFIED discrete transform and of pyPRISM's at fixed k / fixed r under
     refinement; first order means the error roughly halves per halving of dr"""
-    from pyPRISM.core.Domain import Domain
     fwd, bwd = mono(info['fwd']), mono(info['bwd'])
-    rmax = 25.6
-    ns = [128, 256, 512, 1024] + ([2048] if thorough else [])
     rows = []
-    for name, f, F, vol in families():
-        smooth = not name.startswith('sphere')
-        errs_spec_f, errs_code_f, errs_code_b, errs_low = [], [], [], []
-        for n in ns:
-            dr = rmax / n
-            dk = math.pi / rmax
-            d = Domain(n, dr=dr)
-            r = (np.arange(n) + 1) * dr
-            k = (np.arange(n) + 1) * dk
-            fr, Fk = f(r), F(k)
-            jj = np.arange(0, 24)                       # fixed k_j = (j+1) pi / rmax for every n
-            code_f = d.to_fourier(fr)
-            if n <= 1024:
-                MF, MR = dense_transforms(n, dr, dk, fwd, bwd)
-                spec_f = MF @ fr
-                errs_spec_f.append(float(np.max(np.abs(spec_f[jj] - Fk[jj]))))
-                if float(np.max(np.abs(spec_f - code_f))) > 1e-10 * float(np.max(np.abs(spec_f))):
-                    ctx.violation('ForwardTransform', {'family': 'convergence', 'action': 'to_fourier', 'case': name, 'n': n,
-                                                       'detail': 'code differs from the specified discrete transform'})
-            errs_code_f.append(float(np.max(np.abs(code_f[jj] - Fk[jj]))))
-            errs_low.append(abs(float(code_f[0]) - float(Fk[0])))
-            if smooth:
-                code_b = d.to_real(Fk)
-                # fixed r: the points r = 0.2, 0.4, ... , 4.0 exist on every grid of the family
-                ii = (np.arange(1, 21) * (n // 128)) - 1
-                errs_code_b.append(float(np.max(np.abs(code_b[ii] - fr[ii]))))
-            ctx.count(('conv', name, n))
-        scale = abs(vol)
-        rec = {'family': name, 'n': ns, 'err_forward_code': errs_code_f, 'err_forward_spec': errs_spec_f,
-               'err_backward_code': errs_code_b, 'scale': scale}
-        rows.append(rec)
-
-        def judge(errs, what, limit):
-            # converged to rounding: nothing to judge
-            for a, b in zip(errs, errs[1:]):
-                if a < 1e-9 * scale:
-                    continue
-                if b > limit * a:
-                    ctx.violation('FirstOrderConvergence', {'family': 'convergence', 'action': what, 'case': name,
-                                                            'errors': errs, 'detail': 'error does not decrease under refinement (ratio > %g)' % limit})
-                    return
-        judge(errs_code_f, 'to_fourier', 0.75)
-        judge(errs_spec_f, 'spec.forward', 0.75)
-        if smooth and 'yukawa' not in name:
-            judge(errs_code_b, 'to_real', 0.75)
-        # bounded by a constant times dr: err/dr must not grow along the family (it converges to the
-        # first-order coefficient from below for the pre-asymptotic coarse grids: slack 1.5)
-        C = errs_code_f[0] / (rmax / ns[0])
-        for n, e in zip(ns, errs_code_f):
-            if e > 1.5 * C * (rmax / n) + 1e-9 * scale:
-                ctx.violation('ErrorBoundedByDr', {'family': 'convergence', 'action': 'to_fourier', 'case': name, 'n': n,
-                                                   'errors': errs_code_f, 'detail': 'error/dr at fixed k grows under refinement'})
-                break
-        # k -> 0: the lowest-k value tends to the closed form at that k (-> the volume integral)
-        judge(errs_low, 'to_fourier(k_min)', 0.75)
-        rec['err_lowest_k'] = errs_low
+    # two refinement ladders at fixed r_max: powers of two, and lengths 131 * 2^m (131 is prime, so
+    # these lengths are not FFT-friendly)
+    ladders = [[128, 256, 512, 1024] + ([2048] if thorough else []), [131, 262, 524, 1048]]
+    for ns in ladders:
+        for fam in families():
+            name = fam[0]
+            if ns[0] == 131 and not thorough and not name.startswith(('gaussian a=1', 'exponential kappa=1', 'sphere R=2.5')):
+                continue
+            rows.append(ladder(ctx, fam, ns, fwd, bwd))
     return rows
+
+
+def ladder(ctx, fam, ns, fwd, bwd):
+    from pyPRISM.core.Domain import Domain
+    name, f, F, vol = fam
+    rmax = 25.6
+    smooth = not name.startswith('sphere')
+    errs_spec_f, errs_code_f, errs_code_b, errs_low = [], [], [], []
+    for n in ns:
+        dr = rmax / n
+        dk = math.pi / rmax
+        d = Domain(n, dr=dr)
+        r = (np.arange(n) + 1) * dr
+        k = (np.arange(n) + 1) * dk
+        fr, Fk = f(r), F(k)
+        jj = np.arange(0, 24)                       # fixed k_j = (j+1) pi / rmax for every n
+        code_f = d.to_fourier(fr)
+        if n <= 1100:
+            MF, MR = dense_transforms(n, dr, dk, fwd, bwd)
+            spec_f = MF @ fr
+            errs_spec_f.append(float(np.max(np.abs(spec_f[jj] - Fk[jj]))))
+            if float(np.max(np.abs(spec_f - code_f))) > 1e-10 * float(np.max(np.abs(spec_f))):
+                ctx.violation('ForwardTransform', {'family': 'convergence', 'action': 'to_fourier', 'case': name, 'n': n,
+                                                   'detail': 'code differs from the specified discrete transform'})
+        errs_code_f.append(float(np.max(np.abs(code_f[jj] - Fk[jj]))))
+        errs_low.append(abs(float(code_f[0]) - float(Fk[0])))
+        if smooth:
+            code_b = d.to_real(Fk)
+            # fixed r: the points r_max * m / ns[0], m = 1..20, exist on every grid of the ladder
+            ii = (np.arange(1, 21) * (n // ns[0])) - 1
+            errs_code_b.append(float(np.max(np.abs(code_b[ii] - fr[ii]))))
+        ctx.count(('conv', name, n))
+    scale = abs(vol)
+    rec = {'family': name, 'n': list(ns), 'err_forward_code': errs_code_f, 'err_forward_spec': errs_spec_f,
+           'err_backward_code': errs_code_b, 'err_lowest_k': errs_low, 'scale': scale}
+
+    def judge(errs, what, limit):
+        for a, b in zip(errs, errs[1:]):
+            if a < 1e-9 * scale:        # converged to rounding: nothing to judge
+                continue
+            if b > limit * a:
+                ctx.violation('FirstOrderConvergence', {'family': 'convergence', 'action': what, 'case': name, 'n': list(ns),
+                                                        'errors': errs, 'detail': 'error does not decrease under refinement (ratio > %g)' % limit})
+                return
+    judge(errs_code_f, 'to_fourier', 0.75)
+    judge(errs_spec_f, 'spec.forward', 0.75)
+    if smooth and 'yukawa' not in name:
+        judge(errs_code_b, 'to_real', 0.75)
+    # bounded by a constant times dr: err/dr must not grow along the ladder (it converges to the
+    # first-order coefficient from below on the pre-asymptotic coarse grids: slack 1.5)
+    C = errs_code_f[0] / (rmax / ns[0])
+    for n, e in zip(ns, errs_code_f):
+        if e > 1.5 * C * (rmax / n) + 1e-9 * scale:
+            ctx.violation('ErrorBoundedByDr', {'family': 'convergence', 'action': 'to_fourier', 'case': name, 'n': n,
+                                               'errors': errs_code_f, 'detail': 'error/dr at fixed k grows under refinement'})
+            break
+    # k -> 0: the lowest-k value tends to the closed form at that k (-> the volume integral)
+    judge(errs_low, 'to_fourier(k_min)', 0.75)
+    return rec
 
 
 def run(ctx):
@@ -115,7 +124,7 @@ def run(ctx):
                          'distinct = (state, call, scale) edges and (family, n) refinement points')
     ctx.trusted += ['TLC 1.8.0', 'harness/refmath.py dense_transforms', 'closed-form transforms of Gaussian / Yukawa / exponential / sphere']
     ctx.assumptions += ['convergence itself is real analysis and is validated numerically on the families (model validation), not by TLC']
-    lens = [8, 64] if not thorough else [8, 64, 100, 1000]
+    lens = [8, 22] if not thorough else [8, 22, 100, 1000, 1031]
     res, g, info = dc.model_and_graph(ctx, 'Domain (prefactors)', lens, 2 if not thorough else 3)
     ctx.sample({'info_exported_by_TLC': info})
     for s in ([1.0, 0.37] if not thorough else [1.0, 0.37, 2.0]):
